@@ -31,6 +31,18 @@ Lemma det_factor : is_trig_mx L -> \det S = (\prod_(i < n) L i i) ^+ 2.
 Proof. by move=> tr; rewrite -LLt det_mulmx det_tr det_trig // expr2. Qed.
 End Factor.
 
+Section Conditional.
+Variables (F : fieldType) (n nt : nat).
+(* fast path of the predictive mean at the training inputs: y - N alpha = K alpha + m  when (K + N) alpha = y - m *)
+Lemma cond_mean_fast (Km Nm : 'M[F]_n) (a y m : 'cV[F]_n) :
+  (Km + Nm) *m a = y - m -> y - Nm *m a = Km *m a + m.
+Proof. by rewrite mulmxDl => e; apply: (addIr (Nm *m a)); rewrite subrK addrAC e subrK. Qed.
+(* conditional covariance through a factor: with A = L^-1 K*,  K** + N* - A^T A = K** + N* - K*^T S^-1 K* *)
+Lemma cond_cov_factor (L S : 'M[F]_n) (Ks A X : 'M[F]_(n, nt)) (C : 'M[F]_nt) :
+  L *m L^T = S -> L \in unitmx -> L *m A = Ks -> S *m X = Ks -> C - A^T *m A = C - Ks^T *m X.
+Proof. by move=> LLt Lu LA SX; rewrite (quad_form_factor LLt Lu LA SX). Qed.
+End Conditional.
+
 Section Unit.
 Variables (R : rcfType) (n : nat) (L : 'M[R]_n).
 Lemma trig_pos_unit : is_trig_mx L -> (forall i, 0 < L i i) -> L \in unitmx.
